@@ -108,4 +108,11 @@ def s5d_big_tail(check=False):
     return Scenario("S5d-big-tail", {"tail.rs": _filler(135_000) + 'fn bottom() { info!("only one, at the end"); }\n', "a.rs": ONE}, check=check)
 
 
-ALL = {"S1": s1, "S2": s2, "S3": s3, "S4": s4, "S5": s5, "S5b": s5b, "S6": s6, "S7": s7, "S8": s8, "S9": s9_last_missing, "S9b": s9_first_missing, "S10": s10_nine_files, "S5c": s5c_big_head, "S5d": s5d_big_tail}
+def s11_nested(check=False):
+    """Sub-directories: discovery opens and lists several directories, files are spread over three levels."""
+    return Scenario("S11-nested-dirs", {"00_top.rs": 'fn t() { info!("top"); }\n', "01_m/in.rs": 'fn i() { warn!("inner"); info!("[ref: 31] has"); }\n',
+                                        "01_m/deep/x.rs": 'fn x() { info!("[ref: 40] deep"); }\n', "01_m/deep/y.rs": 'fn y() { error!("deepest"); }\n',
+                                        "02_last.rs": 'fn l() { info!("last"); }\n'}, check=check, lock=41)
+
+
+ALL = {"S11": s11_nested, "S1": s1, "S2": s2, "S3": s3, "S4": s4, "S5": s5, "S5b": s5b, "S6": s6, "S7": s7, "S8": s8, "S9": s9_last_missing, "S9b": s9_first_missing, "S10": s10_nine_files, "S5c": s5c_big_head, "S5d": s5d_big_tail}
